@@ -58,6 +58,7 @@ class Profile:
         self.p_savecs = 0.0            # probability that a version is written through SaveChangeSet
         self.p_reopen_old = 0.0        # reopen positioned on an older version (reads only), then back to latest
         self.p_save_existing = 0.5     # after loading an old version: replay the same writes (idempotent save)
+        self.p_hold = 0.0              # probability that a deletion is attempted while an export pins one of its versions
         self.p_churn = 0.05            # probability of a version with many inserts, a hash query, then many removals
         for k, v in kw.items():
             if not hasattr(self, k):
@@ -419,6 +420,19 @@ class Hist:
         n = r.randint(lo, hi - 1)
         if self.base <= n and r.random() < 0.9:
             return
+        pinnable = [v for v in sorted(self.versions) if v <= n and self.versions[v]]
+        if pinnable and r.random() < self.p.p_hold:
+            # an open export pins version e: the request is refused and must have no effect at all
+            e = r.choice(pinnable)
+            self.emit("hold h %d" % e)
+            self.emit("prune %d" % n)
+            self.emit("avail")
+            self.emit("vexists %d" % lo)
+            self.emit("imm %d iterate" % lo)
+            self.emit("imm %d hash" % e)
+            self.emit("release h")
+            if r.random() < 0.5:
+                return
         if r.random() < 0.1:
             self.emit("prune %d" % hi)       # rejected, no effect
             return
